@@ -275,19 +275,29 @@ ContRx(e) == e.call \in {"complete_rx", "lw_rx_cont", "lw_rx_single"} /\ e.pre_m
 \* nothing new to say about them
 IsRefusal(e) == e.res = "err" /\ (e.err \in RefusalErrs(e.call) \/ (e.bus = <<>> /\ e.fault < 0 /\ e.mode = e.pre_mode))
 
-\* the fault hit the very command that would have restored standby (a single fault cannot be survived there)
+\* the fault hit the very command that would have restored standby (a single fault cannot be survived there):
+\* the transfer of the standby command itself, the BUSY wait that completes it (the command reached the chip but
+\* the driver cannot know), or the RF switch being turned off after it
+IsStandbyCmd(e, b) ==
+    \/ (b.t = "spi" /\ ~Is127(e.chip) /\ ~IsLr(e.chip) /\ b.w[1] = 128)
+    \/ (b.t = "spi" /\ IsLr(e.chip) /\ Len(b.w) >= 2 /\ b.w[1] = 1 /\ b.w[2] = 28)
+    \/ (b.t = "spi" /\ Is127(e.chip) /\ b.w[1] = 129)
 FaultOnStandbyCmd(e) ==
     e.fault >= 0 /\ e.fault + 1 <= Len(e.bus)
     /\ LET b == e.bus[e.fault + 1] IN
           \/ b.t = "rfoff"
-          \/ (b.t = "spi" /\ ~Is127(e.chip) /\ ~IsLr(e.chip) /\ b.w[1] = 128)
-          \/ (b.t = "spi" /\ IsLr(e.chip) /\ Len(b.w) >= 2 /\ b.w[1] = 1 /\ b.w[2] = 28)
-          \/ (b.t = "spi" /\ Is127(e.chip) /\ b.w[1] = 129)
+          \/ IsStandbyCmd(e, b)
+          \/ (b.t = "busy" /\ e.fault >= 1 /\ IsStandbyCmd(e, e.bus[e.fault]))
+
+\* the injected fault came on top of an operation that had already timed out on its own (it hit the clean-up
+\* after the time-out): two failures, outside the single-fault quantifier (DESIGN 7.7).  A false belief of
+\* standby is still never excused.
+SecondFailure(e) == e.fault >= 0 /\ (e.timed_out = 1 \/ e.err \in {"TransmitTimeout", "ReceiveTimeout"})
 
 \* the open finding S23 matches this call (injected bus fault, no standby / driver not reset)
 S23(e, s) ==
     /\ Failed(e) /\ ~IsRefusal(e) /\ ~ContRx(e)
-    /\ ~(s.cm = "stdby" /\ e.mode = "standby") /\ ~FaultOnStandbyCmd(e)
+    /\ ~(s.cm = "stdby" /\ e.mode = "standby") /\ ~FaultOnStandbyCmd(e) /\ ~SecondFailure(e)
     /\ e.fault >= 0
     /\ IF e.mode = "standby" /\ s.cm # "stdby" THEN IsAllowed("phy-fault-false-standby:" \o e.call)
        ELSE IsAllowed("phy-fault-no-standby:" \o e.call)
@@ -312,7 +322,7 @@ CallOk(e, s) ==
                       THEN Known("phy-fault-false-standby:" \o e.call, <<e.err, "fault", e.fault, "chip", s.cm>>)
                       ELSE ChkT(<<"C14-4 after a failed operation the driver believes standby while the chip is not", e.call, e.err,
                                   "fault at", e.fault, "chip", s.cm>>, FALSE)
-            ELSE IF FaultOnStandbyCmd(e) THEN TRUE
+            ELSE IF FaultOnStandbyCmd(e) \/ SecondFailure(e) THEN TRUE
             \* KNOWN FINDING (open, DESIGN 9 S23): an injected bus fault (not a timeout / interrupt error, which the
             \* driver handles) returns without forcing standby; listed per API call
             ELSE IF e.fault >= 0 /\ IsAllowed("phy-fault-no-standby:" \o e.call)
